@@ -269,6 +269,53 @@ def rule_overrides(ctx, prop):
         for x in missing_cfg:
             rep.violation(f"{f.key} config-field-not-overridable {x}",
                           f"Config.{x} can be set in stylua.toml but has no command-line override", f.loc(), cfg)
+        # path clause: no path returns without having looked at a flag - a path that does not reach the write of field F knows
+        # (from a test on that very field) that the flag is absent
+        from paths import Enumerator, TooManyPaths
+        wblocks = {}
+        for bi, fld, o, s_ in writes:
+            wblocks.setdefault(fld.split(".")[0], set()).add(bi)
+        try:
+            pres = Enumerator(f, max_paths=60000).run()
+        except TooManyPaths:
+            pres = None
+            rep.note(f"@{cfg}: load_overrides has too many paths for the skip clause (not evaluated)")
+        if pres is not None:
+            skipped = {}
+            for st in pres:
+                trail = set(st.trail)
+                absent = set()
+                for k, v in st.disc.items():
+                    m = re.search(r"\.format_opts\.(\w+)$", k) or re.search(r"\.(\w+)$", k)
+                    if m and v in ("None", "false") and m.group(1) in fo_fields:
+                        absent.add(m.group(1))
+                for cb, dec in st.decisions.items():
+                    t = f.blocks[cb]["term"]
+                    c = callee(t)
+                    if re.search(r"Option::<.*>::is_(none|some)$", c) and t["args"]:
+                        for fs2 in _field_paths(f, t["args"][0]):
+                            if "format_opts" in fs2 and len(fs2) > fs2.index("format_opts") + 1:
+                                if dec == c.endswith("is_none"):
+                                    absent.add(fs2[fs2.index("format_opts") + 1])
+                    else:
+                        # `opt.format_opts.is_empty()`: a helper over the flags; what its answer establishes is read off its paths
+                        h = prog.fn("stylua", c)
+                        if h is not None and h.locals[0] == "bool" and h.argc == 1 and "FormatOpts" in h.locals[1] and t["args"] and \
+                                any([x[1] for x in proj_fields(o2) if x[0] == "f"][-1:] == ["format_opts"] for o2 in _operand_places(f, t["args"][0])):
+                            absent |= _helper_absent(h, dec)
+                for fld in fo_fields:
+                    if fld in written and not (wblocks.get(fld, set()) & trail) and fld not in absent:
+                        # the flag may be present on this path (never tested, or tested present) and is not applied
+                        tested = any(re.search(r"\." + fld + "$", k) for k in st.disc)
+                        if not tested:
+                            skipped.setdefault(fld, st)
+            rep.inst(f"{f.key} no path returns without looking at every flag", {"paths": len(pres)}, cfg, ok=not skipped)
+            for fld, st in sorted(skipped.items()):
+                rep.violation(f"{f.key} flag-skipped-on-a-path {fld}",
+                              f"load_overrides has a path to its return on which opt.format_opts.{fld} is never tested and "
+                              f"new_config.{fld} is not written (an early return decided on other flags): "
+                              f"--{fld.replace('_', '-')} given alone is silently ignored, while the same value in stylua.toml "
+                              f"or .editorconfig applies", f.loc(), cfg)
         # the function returns new_config which starts as a copy of the `config` parameter
         pr = provenance(f, 0, through=None, into_aggs=False)
         cfg_args = [i for i in range(1, f.argc + 1) if f.locals[i] == "stylua_lib::Config"]
@@ -278,6 +325,78 @@ def rule_overrides(ctx, prop):
             rep.violation(f"{f.key} does-not-start-from-config", "load_overrides does not start from its `config` "
                                                                  "argument", f.loc(), cfg)
     return rep
+
+
+def _helper_absent(h, answer):
+    """fields of `self: &FormatOpts` known to be None / false on every path of h that returns `answer`"""
+    from paths import Enumerator, TooManyPaths
+    try:
+        res = Enumerator(h, max_paths=20000, summaries=False).run()
+    except TooManyPaths:
+        return set()
+    common = None
+    for st in res:
+        v0 = st.vals.get(0)
+        if not (v0 and v0[0] == "const" and isinstance(v0[1], bool)):
+            return set()
+        if v0[1] != answer:
+            continue
+        ab = set()
+        for k, v in st.disc.items():
+            m = re.match(r"arg:1\.(\w+)$", k)
+            if m and v in ("None", "false"):
+                ab.add(m.group(1))
+        for cb, dec in st.decisions.items():
+            t = h.blocks[cb]["term"]
+            c = callee(t)
+            if re.search(r"Option::<.*>::is_(none|some)$", c) and t["args"] and dec == c.endswith("is_none"):
+                for o2 in _operand_places(h, t["args"][0]):
+                    fs2 = [x[1] for x in proj_fields(o2) if x[0] == "f"]
+                    if o2["l"] == 1 and len(fs2) == 1:
+                        ab.add(fs2[0])
+        common = ab if common is None else (common & ab)
+    return common or set()
+
+
+def _field_paths(f, o, depth=0):
+    """field-name paths (from a parameter or local root) the operand's referent may have, composed through references:
+    `_p = &(*opt).format_opts; _q = &(*_p).syntax` gives [.., 'format_opts', 'syntax'] for `_q`"""
+    out = []
+    if is_const(o) or depth > 8:
+        return out
+    pl = op_place(o)
+    own = [x[1] for x in proj_fields(pl) if x[0] == "f"]
+    bases = []
+    for bi, si, s in f.defs().get(pl["l"], []):
+        if si == "term":
+            continue
+        rv = s["rv"]
+        if rv["k"] in ("ref", "rawptr"):
+            bases += _field_paths(f, {"cp": rv["p"]}, depth + 1)
+        elif rv["k"] in ("use", "cast") and not is_const(rv["o"]):
+            bases += _field_paths(f, rv["o"], depth + 1)
+    if not bases:
+        return [own]
+    return [b + own for b in bases]
+
+
+def _operand_places(f, o, depth=0):
+    """places an operand (a reference, possibly copied) may denote"""
+    out = []
+    if is_const(o) or depth > 6:
+        return out
+    pl = op_place(o)
+    out.append(pl)
+    for bi, si, s in f.defs().get(pl["l"], []):
+        if si == "term":
+            continue
+        rv = s["rv"]
+        if rv["k"] in ("ref", "rawptr"):
+            out.append(rv["p"])
+            out += _operand_places(f, {"cp": rv["p"]}, depth + 1)[1:]
+        elif rv["k"] in ("use", "cast") and not is_const(rv["o"]):
+            out += _operand_places(f, rv["o"], depth + 1)
+    return out
 
 
 def rule_deny_unknown(ctx, prop):
